@@ -157,7 +157,7 @@ func TestVP_C09_finalization(t *testing.T) {
 	c := kit.New(t, "C09", "rapid: G-membership histories with real keys (7..10 genesis quick / ..24 thorough, 0..8 lifecycle operations, removals below 7 allowed), non-mainnet id; per history 6 base queries: chain (accepted, or the pledging node with round 0), snapshot timestamp from the boundary set, signer subset of size {T-1,T,T+1,n,1,random} of the key vector the code reports at the signing (history, time), honest certificate through the real CoSi API with drawn nonce seeds; twins: mask bit added/removed/moved/>=n, R or s bit flip, snapshot field edit, replay on another snapshot, verification on another history (prefix, extra removal, extra fresh accept) or with keys of another time; every query asked 1..4 times in mixed order with cache Wait() in between; oracle = independent edwards25519 verifier + reference key vector; non-trivial = accepted honest certificate on a history with non-genesis records, or a tampered twin; distinct by snapshot hash+signature+mask+target")
 	c.Require("honest-accepted", "honest-below-threshold", "exact-threshold", "mask-added", "mask-removed", "mask-moved", "mask-bit>=n", "sig-R-flip", "sig-s-flip",
 		"snapshot-edit", "replay-other-snapshot", "other-history", "other-history-accepted", "other-time-keys", "cache-hit", "cache-miss", "pledging-chain-round0", "non-genesis-history",
-		"removal-window", "threshold-unreachable", "no-signature", "accepted-chain-round0")
+		"removal-window", "threshold-unreachable", "no-signature", "accepted-chain-round0", "legacy-vector-cert", "legacy-retry-accepted", "legacy-retry-refused")
 	kit.SetChecks(kit.N(800, 20000))
 	cache := vpKMNewCache()
 	defer cache.Close()
@@ -166,7 +166,29 @@ func TestVP_C09_finalization(t *testing.T) {
 		maxG = 24
 	}
 	rapid.Check(t, func(rt *rapid.T) {
-		h := vpKMGenHist(rt, vpKMOpts{Epoch: vpKMEpochDefault, Network: vpKMNetwork("c09"), MinGenesis: 7, MaxGenesis: maxG, MaxOps: 8, RealKeys: true, AllowBelow7: true, ValidBias: 60})
+		// one history in four lives on the mainnet id with all its records before the
+		// signer-set fork (epoch 100 days before it): there a certificate that fails
+		// against the key set at its timestamp is retried against the key set and
+		// threshold from just before the day's node-operation window (legacy rule)
+		epoch, network := vpKMEpochDefault, vpKMNetwork("c09")
+		mainnet := rapid.IntRange(0, 3).Draw(rt, "mainnet") == 0
+		if mainnet {
+			network = vpKMMainnet()
+			epoch = mainnetConsensusNodeRemovalSignerSetForkAt - 100*vpKMDay - uint64(config.KernelNodeAcceptTimeBegin)*vpKMHour
+		}
+		h := vpKMGenHist(rt, vpKMOpts{Epoch: epoch, Network: network, MinGenesis: 7, MaxGenesis: maxG, MaxOps: 8, RealKeys: true, AllowBelow7: true, ValidBias: 60})
+		// legacyTime: for a mainnet pre-fork timestamp inside the operation window, the
+		// instant just before that day's window (0 otherwise)
+		legacyTime := func(ts uint64) uint64 {
+			if !mainnet || ts < h.Epoch || ts >= mainnetConsensusNodeRemovalSignerSetForkAt {
+				return 0
+			}
+			hour := (ts - h.Epoch) / vpKMHour % 24
+			if hour < uint64(config.KernelNodeAcceptTimeBegin) || hour > uint64(config.KernelNodeAcceptTimeEnd) {
+				return 0
+			}
+			return ts - (hour+1-uint64(config.KernelNodeAcceptTimeBegin))*vpKMHour
+		}
 		holder := &Node{cacheStore: cache}
 		main := vpC09NewTarget("main", h, h.Records, holder)
 		targets := []*vpC09Target{main}
@@ -209,6 +231,11 @@ func TestVP_C09_finalization(t *testing.T) {
 			accId := main.accId
 			if rapid.IntRange(0, 2).Draw(rt, lbl+"_anychain") == 0 {
 				accId = main.recs[rapid.IntRange(0, len(main.recs)-1).Draw(rt, lbl+"_chainrec")].IdForNetwork
+			}
+			if lt := legacyTime(ts); lt != 0 && rapid.Bool().Draw(rt, lbl+"_legacysign") {
+				// a certificate made on the key set from before the window
+				signTs = lt
+				c.Class("legacy-vector-cert")
 			}
 			chain := signT.chainFor(pledging, accId)
 			if !pledging && round == 0 {
@@ -418,6 +445,25 @@ func TestVP_C09_finalization(t *testing.T) {
 				if want {
 					for _, b := range vpC09MaskBits(s.Signature.Mask) {
 						wantIds = append(wantIds, cids[b])
+					}
+				}
+				if lt := legacyTime(s.Timestamp); !want && lt != 0 {
+					// legacy rule (mainnet before the fork, inside the window): retried
+					// against the pre-window key set with the pre-window threshold, only
+					// when that key set is larger
+					lids, lkeys := chain.ConsensusKeys(s.RoundNumber, lt)
+					if len(lkeys) > len(keys) {
+						LT := tg.node.ConsensusThreshold(lt, true)
+						if vpC09Verify(lkeys, LT, s.Hash, s.Signature.Signature, s.Signature.Mask) {
+							want = true
+							wantIds = nil
+							for _, b := range vpC09MaskBits(s.Signature.Mask) {
+								wantIds = append(wantIds, lids[b])
+							}
+							c.Class("legacy-retry-accepted")
+						} else {
+							c.Class("legacy-retry-refused")
+						}
 					}
 				}
 				// reference key vector: matured (12 h) accepted nodes in age order, without the
